@@ -79,6 +79,14 @@ class Lib:
                     lo = (base + p_vaddr) & ~0xFFF
                     hi = (base + p_vaddr + p_memsz + 0xFFF) & ~0xFFF
                     regions.append((lo, hi - lo))
+        # fault classifier first (its own bookkeeping lives in the library image and is only read afterwards)
+        n_r = len(regions)
+        lo_a = (ctypes.c_uint64 * n_r)(*[lo for lo, _ in regions])
+        hi_a = (ctypes.c_uint64 * n_r)(*[lo + n for lo, n in regions])
+        inst = self.so.vk_wp_install
+        inst.restype = c_int
+        if inst(lo_a, hi_a, n_r) != 0:
+            raise OSError("cannot install the write-protection fault classifier")
         for lo, n in regions:
             if libc.mprotect(lo, n, 1) != 0:
                 raise OSError("mprotect failed")
